@@ -630,7 +630,7 @@ class SchedProp(Prop):
     MAX_WORKERS = 6
     COQ_SHARD = 25
     CASE_TIMEOUT = 60
-    SIZES = {"quick": 150, "thorough": 2500, "extended": 500}
+    SIZES = {"quick": 150, "thorough": 1500, "extended": 500}
     RULE = ("histories of 6..60 operations (schedule requests and status notifications RUNNING/COMPLETED/FAILED/CANCELLED/"
             "ROLLBACK/RECOVERY, duplicated notifications, du results 0..100% of the reservation or failing) over 1..3 target "
             "deployments x 1..3 locations (hardware with 1..3 mount points, or slots), optionally stacked on a wrapped "
